@@ -28,12 +28,19 @@ Binary == /\ \A ty \in ChainTypes :
                /\ Want("C07") => \A op \in RelOps : Emit([op |-> op, ty |-> ty, n |-> N, a |-> a, b |-> b])
                /\ Want("C15") => Emit([op |-> "iv.cmp", ty |-> ty, n |-> N, a |-> a, b |-> b])
                /\ Want("C14") => Emit([op |-> "iv.eqhash", ty |-> ty, n |-> N, a |-> a, b |-> b])
+          \* float intervals whose extreme bound positions are -inf / +inf given as explicit BOUNDS ("f64xb"): such a pair
+          \* has no agreed set denotation, but Equal <=> == and the operator forms do not depend on one
+          /\ Want("C15") => Emit([op |-> "iv.cmp", ty |-> "f64xb", n |-> N, a |-> a, b |-> b])
 
 Unary  == /\ a = b
           /\ \A ty \in ChainTypes :
                /\ Want("C07") => \A x \in W :
                                /\ Emit([op |-> "iv.contains", ty |-> ty, n |-> N, a |-> a, x |-> x])
                                /\ Emit([op |-> "iv.range_contains", ty |-> ty, n |-> N, a |-> a, x |-> x])
+               \* the NaN probe (code 99) of the float types: not a member of any closed set of reals, in either view
+               /\ (Want("C07") /\ ty \in {"f64", "f64inf"}) =>
+                               /\ Emit([op |-> "iv.contains", ty |-> ty, n |-> N, a |-> a, x |-> 99])
+                               /\ Emit([op |-> "iv.range_contains", ty |-> ty, n |-> N, a |-> a, x |-> 99])
                \* C14: the view of an interval as a range (start_bound / end_bound) is one of its conversions
                /\ (Prop = "C14") => \A x \in W : Emit([op |-> "iv.range_contains", ty |-> ty, n |-> N, a |-> a, x |-> x])
                /\ Want("C14") => Emit([op |-> "iv.observe", ty |-> ty, n |-> N, a |-> a])
